@@ -48,7 +48,7 @@ TrDlClose == IsEvent("dlclose") /\ Consume /\ Ev.id \in DOMAIN libs /\ libs' = D
 TrResidue == IsEvent("residue") /\ Consume /\ Ev.id \in mem /\ mem' = mem \ {Ev.id} /\ UNCHANGED <<fds, files, dirs, maps, sems, names, libs, base>>
 (* a failed p_socket_new_from_fd leaves the caller's descriptor open (it was never the library's) *)
 TrCallerFd == IsEvent("caller_fd") /\ Consume /\ Ev.alive = 1 /\ Ev.fd \notin fds /\ UNCHANGED lv
-TrStep == (IsEvent("acq") \/ IsEvent("rel")) /\ Consume /\ UNCHANGED lv
+TrStep == (IsEvent("acq") \/ IsEvent("rel") \/ IsEvent("sysfail")) /\ Consume /\ UNCHANGED lv
 TrBaseline == IsEvent("baseline") /\ Consume /\ base' = <<Ev.nfd, Ev.nshmmaps, Ev.ntasks>> /\ UNCHANGED <<mem, fds, files, dirs, maps, sems, names, libs>>
 (* every object has been freed: the ledger is empty and the independent snapshot equals the baseline *)
 TrQuiesce == /\ IsEvent("quiesce") /\ Consume
